@@ -30,8 +30,8 @@ CONSTANTS NP,        \* number of partition columns (1..3)
 VARIABLES lay, flt
 
 DV == {Null, I(1), I(2), I(3)}
-Slot == [on : BOOLEAN, decoy : 0..5, p1 : SV, p2 : IV, p3 : SV, d1 : DV, d2 : DV, two : BOOLEAN]
-Layouts == [f1 : Slot, f2 : Slot, f3 : Slot, f4 : Slot, glob : BOOLEAN]
+Slot == [on : BOOLEAN, decoy : 0..7, p1 : SV, p2 : IV, p3 : SV, d1 : DV, d2 : DV, two : BOOLEAN]
+Layouts == [f1 : Slot, f2 : Slot, f3 : Slot, f4 : Slot, glob : BOOLEAN, ignsub : BOOLEAN]
 
 SlotSeq(l) == <<l.f1, l.f2, l.f3, l.f4>>
 \* f1 is always present
@@ -39,8 +39,16 @@ FileIdx(l) == {i \in 1..4 : i = 1 \/ SlotSeq(l)[i].on}
 PartVals(s) == SubSeq(<<S(s.p1), I(s.p2), S(s.p3)>>, 1, NP)
 DataRows(s, i) == IF s.two THEN << <<s.d1, I(i)>>, <<s.d2, I(i)>> >> ELSE << <<s.d1, I(i)>> >>
 \* decoy 1: extension does not match; decoy 2: name not matched by the glob (only if the table has a glob)
-Decoy(s) == IF s.decoy = 4 THEN 1 ELSE IF s.decoy = 5 THEN 2 ELSE 0
-Covered(l, i) == LET s == SlotSeq(l)[i] IN Decoy(s) # 1 /\ ~(Decoy(s) = 2 /\ l.glob)
+\* decoy kinds: 1 wrong extension; 2 name not matched by the table's glob (if it has one); 3 file in a nested
+\* non-partition sub-directory of its partition directory (belongs to the table iff sub-directories are not
+\* ignored; never matched by the file-name glob); 4 zero-length file (holds no rows)
+Decoy(s) == IF s.decoy >= 4 THEN s.decoy - 3 ELSE 0
+Covered(l, i) == LET s == SlotSeq(l)[i] IN
+  CASE Decoy(s) = 0 -> TRUE
+    [] Decoy(s) = 1 -> FALSE
+    [] Decoy(s) = 2 -> ~l.glob
+    [] Decoy(s) = 3 -> ~l.ignsub /\ ~l.glob
+    [] Decoy(s) = 4 -> FALSE
 FileRows(l, i) == LET s == SlotSeq(l)[i] IN [k \in 1..Len(DataRows(s, i)) |-> PartVals(s) \o DataRows(s, i)[k]]
 
 \* ------------------------------------------------------------- predicates
@@ -96,7 +104,7 @@ Init == /\ lay \in RandomSubset(NLay, Layouts)
 Next == UNCHANGED <<lay, flt>>
 Spec == Init /\ [][Next]_<<lay, flt>>
 
-Case == [np |-> NP, glob |-> lay.glob,
+Case == [np |-> NP, glob |-> lay.glob, ignsub |-> lay.ignsub, all |-> Result(lay, Lit(TrueV)),
          files |-> [i \in 1..4 |-> [present |-> i \in FileIdx(lay), decoy |-> Decoy(SlotSeq(lay)[i]),
                                     covered |-> i \in CoveredIdx(lay),
                                     pv |-> PartVals(SlotSeq(lay)[i]), rows |-> DataRows(SlotSeq(lay)[i], i)]],
